@@ -4,7 +4,7 @@ NOTES = ('Model-based verification with explicit TLA+ specifications (specs/), c
          'specifications (Binding B). See DESIGN.md.')
 ENGINES = [
     {'name': 'instance-edges', 'path': 'specs/Instance.tla + specs/MC*.tla + harness/src/bin/replay.rs',
-     'serves_properties': ['C05', 'C06', 'C07', 'C08', 'C09', 'C10', 'C11', 'C14'],
+     'serves_properties': ['C03', 'C05', 'C06', 'C07', 'C08', 'C09', 'C10', 'C11', 'C12', 'C14', 'C15'],
      'kind_free_text': 'TLC enumerates every edge of the bounded state graph of the instance/port specification; each edge is replayed on fresh real objects and the projection compared'},
 ]
 CLAIMED = {
@@ -78,5 +78,32 @@ CLAIMED['C14'] = {
     'text': ('Two requests, a two-step and a one-step responder, transmit timestamp / Pdelay_Resp / Pdelay_Resp_Follow_Up each up to twice in any order, in listening, master and '
              'slave state; TLC checks provenance and the fault rules; every edge is replayed on a real P2P port, peer delay compared bit-exactly, port state compared.'),
     'note': 'the faulty-port-becomes-master defect found by this check is repaired by fix: 0d9a59a',
+}
+
+CLAIMED['C03'] = {
+    'engine': 'instance-edges', 'level': 'exploration', 'design_ref': 'DESIGN.md section 4, C03',
+    'technique': 'TLA+ specification total over a boundary-class alphabet; TLC enumerates (state, extreme input) edges which are replayed under catch_unwind in debug and release profiles; plus a randomised extreme-value / mutated-frame driver',
+    'text': ('Every action of the specification is enabled for every input class in every state; TLC enumerates the edges of slave, master, peer-delay and listening '
+             'configurations over boundary classes of correction fields, timestamps, stepsRemoved, path-trace lengths and TLV sizes; each edge is executed on real ports '
+             'in the overflow-checking debug profile and in the release profile, any unwind or lock span left by unwinding is a violation. A random driver adds 600 000 '
+             '(quick) calls with the same classes, random and mutated frames up to 2048 octets and six port configurations per profile. Seven panics found this way are repaired by fix: commits.'),
+    'note': 'classes are sampled, not every value; the recording mutex reports poisoning (an unwind inside with_mut) instead of a real RwLock',
+}
+CLAIMED['C12'] = {
+    'engine': 'instance-edges', 'level': 'model_checking', 'design_ref': 'DESIGN.md section 4, C12',
+    'technique': 'TLA+ safety invariant NoOrphanWait on instance x host timers + TLC liveness checking (weak fairness, no state constraint) of the finite continuation model + conformance replay + virtual-time continuation driver on the real code',
+    'text': ('MCHost composes the instance specification with a host that arms exactly the requested timers and fires only armed ones. TLC checks NoOrphanWait on every '
+             'reachable state (E2E, two ports with a master-only port, P2P with peer-delay faults) and, on the finite continuation model without a depth bound, '
+             'LiveSilence, LiveSilenceSlaveOnly and LiveSteady under weak fairness. Every safety edge is replayed on real ports with the exact timer actions compared and the '
+             'armed set tracked from the real returned actions; a virtual-time host continues random real histories with silence / a steady better master and checks state and cadence.'),
+    'note': 'one recorded finding (P2P port recovering from faulty into listening with no receipt timer); liveness for two-port and P2P configurations only in the thorough tier',
+}
+CLAIMED['C15'] = {
+    'engine': 'instance-edges', 'level': 'model_checking', 'design_ref': 'DESIGN.md section 4, C15',
+    'technique': 'TLA+ model checking of TLV forwarding with integer room accounting and tagged TLV instances (Fits, OnlyParentPropagating, OrderOnce, NextWithRoom, AlwaysSent, PathOK, NoLoopAccepted) + conformance replay through the real TlvForwarder',
+    'text': ('A boundary clock with one slave and one or two master ports; Announces from the parent and from another acceptable master carry TLV lists whose sizes sit at, below and '
+             'above the room of an Announce (with and without path trace, path lengths up to 129); TLC checks the forwarding invariants; every edge is replayed on real ports wired to '
+             'the real daemon forwarder, the TLV suffix of each emitted Announce is decoded independently and by statime\'s parser. A driver overflows the 128-slot channel.'),
+    'note': 'one recorded finding (a TLV larger than any Announce blocks the queue); four defects found by this check are repaired by fix: commits',
 }
 NOT_CLAIMED = {}
